@@ -2,6 +2,7 @@ use crate::engine::Ctx;
 pub mod common;
 pub mod c01;
 pub mod c02;
+pub mod c03;
 pub mod c04;
 pub mod c08;
 pub mod c09;
@@ -15,6 +16,7 @@ pub fn lookup(id: &str) -> Option<(&'static str, fn(&mut Ctx))> {
     Some(match id {
         "C01" => ("C01", c01::run as fn(&mut Ctx)),
         "C02" => ("C02", c02::run as fn(&mut Ctx)),
+        "C03" => ("C03", c03::run as fn(&mut Ctx)),
         "C04" => ("C04", c04::run as fn(&mut Ctx)),
         "C08" => ("C08", c08::run as fn(&mut Ctx)),
         "C09" => ("C09", c09::run as fn(&mut Ctx)),
